@@ -447,8 +447,8 @@ FIND_OBLIGATIONS = [ob_instance_matches_find, ob_handle_findservice, ob_send_off
 
 class QWorld:
     """an announcer whose send queues are in an arbitrary state: for the destination of
-    interest no collector, an open one (0..1 entries queued so far) or an expired one; an
-    open collector for another destination"""
+    interest no collector, an open one (ARBITRARILY MANY entries queued so far) or an expired
+    one; an open collector for another destination"""
 
     def __init__(self, vc, name="q"):
         self.vc = vc
@@ -467,10 +467,10 @@ class QWorld:
             vc.assume(self.R != self.R2)
         self.prior = SCFG.gen_entry(vc, name + ".prior_entry", sd_type=vc.choice(name + ".prior_type", (H.SOMEIPSDEntryType.OfferService, H.SOMEIPSDEntryType.SubscribeAck)), resolved=True)
         self.other = SCFG.gen_entry(vc, name + ".other_entry", sd_type=H.SOMEIPSDEntryType.OfferService, resolved=True)
-        self.state = vc.choice(name + ".R_queue", ("none", "open-empty", "open-one", "done"))
+        self.state = vc.choice(name + ".R_queue", ("none", "open", "done"))
         self.col = None
         if self.state != "none":
-            self.col = self.mk_collector(name + ".R", self.R, [self.prior] if self.state == "open-one" else [], self.state == "done")
+            self.col = self.mk_collector(name + ".R", self.R, [self.prior], self.state == "done")
         self.col2 = None
         if vc.bool(name + ".R2_open"):
             self.col2 = self.mk_collector(name + ".R2", self.R2, [self.other], False)
@@ -482,6 +482,8 @@ class QWorld:
         remaining = vc.real(name + ".remaining", 0)
         vc.assume(remaining <= self.timeout)
         c._handle.when = self.loop.now + remaining
+        # what was queued before: an arbitrary number of entries, then `data`
+        c.data = vc.sym_list(name + ".queued_before")
         for d in data:
             c.append(d)
         if done:
@@ -510,14 +512,14 @@ def ob_queue_send(vc):
     vc.check(c is not None and not c.done, "queue_send.destination_has_an_open_collector")
     if c is None:
         return
-    if w.state in ("open-empty", "open-one"):
+    if w.state == "open":
         vc.cover("joined")
         vc.check(c is w.col, "queue_send.open_collector_is_reused")
-        vc.check_eq(c.data, ([w.prior] if w.state == "open-one" else []) + [entry], "queue_send.appended_behind_earlier_entries")
+        vc.check_eq(vc.list_tail(c.data), [w.prior, entry], "queue_send.appended_behind_earlier_entries")
         vc.check_eq(len(w.loop.timers), n_timers, "queue_send.joining_arms_no_timer")
     else:
         vc.cover("created")
-        vc.check_eq(c.data, [entry], "queue_send.new_collector_holds_the_entry")
+        vc.check_eq(list(c.data), [entry], "queue_send.new_collector_holds_the_entry")
         vc.check_eq(len(w.loop.timers), n_timers + 1, "queue_send.new_collector_arms_one_timer")
         vc.check(len(c.kwargs) == 1 and c.kwargs.get("remote") == w.R and c.args == () and c.callback == w.prot.send_sd, "queue_send.collector_sends_to_its_destination")
     h = c._handle
@@ -525,18 +527,21 @@ def ob_queue_send(vc):
     vc.check(h.when <= w.loop.now + w.timeout, "queue_send.leaves_no_later_than_timeout_after_queueing")
     if w.col2 is not None:
         vc.cover("other-destination")
-        vc.check(w.ann.send_queues.get(w.R2) is w.col2 and w.col2.data == [w.other], "queue_send.other_destinations_untouched")
+        vc.check(w.ann.send_queues.get(w.R2) is w.col2 and vc.list_tail(w.col2.data) == [w.other], "queue_send.other_destinations_untouched")
 
 
 def ob_collector_timeout(vc):
     """the window closes: exactly one send_sd with the collected entries in queueing order,
     to the collector's destination; the collector takes no more entries afterwards"""
     w = QWorld(vc)
-    vc.assume(w.state in ("open-empty", "open-one"))
+    vc.assume(w.state == "open")
     fired = w.loop.fire(w.col._handle)
     vc.check(fired, "collector.timer_fires")
     vc.check(w.col.done, "collector.closed_after_timeout")
-    vc.check_eq(w.sends, [([w.prior] if w.state == "open-one" else [], w.R)], "collector.sends_once_in_order_to_its_destination")
+    vc.check_eq(len(w.sends), 1, "collector.sends_exactly_once")
+    if len(w.sends) == 1:
+        vc.check(w.sends[0][0] is w.col.data, "collector.sends_everything_queued_in_queueing_order")
+        vc.check_eq(w.sends[0][1], w.R, "collector.sends_to_its_destination")
     o = vc.outcome(w.col.append, SCFG.gen_entry(vc, "late", sd_type=H.SOMEIPSDEntryType.OfferService, resolved=True))
     vc.check(vc.is_exc(o, RuntimeError), "collector.closed_collector_refuses_entries")
     vc.check(not w.loop.fire(w.col._handle), "collector.fires_at_most_once")
@@ -551,7 +556,7 @@ def ob_queue_then_timeout(vc):
     w.ann.queue_send(entry, w.R)
     c = w.ann.send_queues.get(w.R)
     w.loop.fire(c._handle)
-    n = len([1 for s in w.sends if s[0][len(s[0]) - 1] is entry])
+    n = len([1 for s in w.sends if len(vc.list_tail(s[0])) > 0 and vc.list_tail(s[0])[len(vc.list_tail(s[0])) - 1] is entry])
     vc.check_eq(n, 1, "queued_entry.transmitted_exactly_once_as_the_last_of_its_message")
     vc.check_eq([s[1] for s in w.sends], [w.R], "queued_entry.only_to_its_destination")
 
@@ -566,12 +571,12 @@ def ob_stop_keeps_queued_entries(vc):
         vc.body(SD.ServiceAnnouncer.connection_lost)(w.ann, None)
     else:
         vc.body(SD.ServiceAnnouncer.stop)(w.ann)
-    for c, remote, data in ((w.col, w.R, [w.prior] if w.state == "open-one" else []), (w.col2, w.R2, [w.other])):
+    for c, remote, data in ((w.col, w.R, [w.prior]), (w.col2, w.R2, [w.other])):
         if c is not None and not c.done:
             vc.cover("pending")
             vc.check(w.ann.send_queues.get(remote) is c, "announcer.stop.pending_collector_still_registered")
             vc.check(not c._handle.cancelled_, "announcer.stop.pending_collector_timer_still_live")
-            vc.check_eq(c.data, data, "announcer.stop.pending_entries_kept")
+            vc.check_eq(vc.list_tail(c.data), data, "announcer.stop.pending_entries_kept")
     vc.check_eq(w.sends, [], "announcer.stop.sends_nothing_immediately_by_itself")
 
 
